@@ -356,6 +356,51 @@ def many_fields(case, ctx):
     check_views("C07.many", out, case, expected_field=expected, tol_rel=1e-12)
 
 
+# --- stamps: accumulation targets of exactly a field's size --------------------------------------------------------
+
+@hyp("C07", "stamp_insert", lambda tier: st.fixed_dictionaries(
+        {"shape": st.tuples(st.integers(8, 20), st.integers(8, 20)).map(list), "h": st.integers(2, 7), "w": st.integers(2, 7),
+         "k": st.integers(-4, 4), "dir": st.sampled_from(["anti_diagonal", "anti_diagonal", "diagonal", "rows", "cols", "free"]),
+         "k2": st.integers(-4, 4), "dt": st.sampled_from([[0, 0], [0, 0], [1, 0], [0, -1], [2, 3]]),
+         "weight": st.sampled_from([1, 0.25, -1.5, 3]), "seed": st.integers(0, 2**31 - 1), "prefill": st.booleans()}),
+     "an aperture block displaced from the array centre along the anti-diagonal / diagonal / one axis, accumulated into "
+     "a target of exactly the block's size (a stamp cut to a sub-aperture) or a sample larger: the target gains "
+     "weight x intensity of the part of the wavefront that falls inside it, origin samples aligned", examples=(300, 1200))
+def stamp_insert(case, ctx):
+    m, n = case["shape"]
+    h, w_ = min(case["h"], m - 2), min(case["w"], n - 2)
+    k, k2 = case["k"], case["k2"]
+    dr, dc = {"anti_diagonal": (k, -k), "diagonal": (k, k), "rows": (k, 0), "cols": (0, k), "free": (k, k2)}[case["dir"]]
+    # block with its origin sample (index floor(size/2)) at the array's origin sample + (dr, dc), kept inside the array
+    r0 = min(max(m // 2 + dr - h // 2, 0), m - h)
+    c0 = min(max(n // 2 + dc - w_ // 2, 0), n - w_)
+    off = (r0 + h // 2 - m // 2, c0 + w_ // 2 - n // 2)
+    rng = np.random.default_rng(case["seed"])
+    amp = np.zeros((m, n))
+    amp[r0:r0 + h, c0:c0 + w_] = rng.uniform(0.3, 1.0, size=(h, w_))
+    opd = rng.normal(size=(m, n)) * 1e-7
+    tshape = (h + case["dt"][0], max(1, w_ + case["dt"][1]))
+    ctx.tag("dir:" + case["dir"], "target=field_shape" if tshape == (h, w_) else "target!=field_shape",
+            "offset_antidiagonal_nonzero" if off[0] == -off[1] and off[0] != 0 else None, "offset_zero" if off == (0, 0) else None)
+    ctx.nontrivial_if(off != (0, 0))
+    if h * w_ == 1:
+        raise Skip("single_sample_field(known)")
+    with lentil_call("C07.stamp.build", "Wavefront * Pupil"):
+        w = lentil.Wavefront(1e-6) * lentil.Pupil(amplitude=amp, opd=opd, pixelscale=1e-3, focal_length=2.0)
+    inten = np.abs(amp * np.exp(2j * np.pi * opd / 1e-6)) ** 2
+    out = rng.uniform(-3, 3, size=tshape) if case["prefill"] else np.zeros(tshape)
+    before = out.copy()
+    exp = before + case["weight"] * fm.window(fm.embed(inten, (0, 0), dtype=float), tshape)
+    with lentil_call("C07.stamp.insert", f"Wavefront.insert(target {tshape}, weight {case['weight']})"):
+        ret = w.insert(out, weight=case["weight"])
+    if ret is not out:
+        raise Violation("C07.stamp.identity", "insert did not return the target array")
+    sc = max(cm.max_abs(exp), cm.max_abs(before), 1e-300)
+    if cm.max_abs(out - exp) > 1e-12 * sc:
+        raise Violation("C07.stamp.value", f"a {h}x{w_} aperture block at offset {off} accumulated into a {tshape} target (weight "
+                                           f"{case['weight']}) differs from target + weight*intensity by {cm.max_abs(out - exp):.3e}")
+
+
 # --- histories: one plane object used, edited and derived between multiplications ---------------------------
 
 PLANE_EDITS = ["set_opd", "set_opd_scalar", "set_amp", "inplace_opd", "inplace_amp", "aug_opd", "copy", "deepcopy",
